@@ -506,9 +506,24 @@ fn base_text(target: Target, tier: Tier) -> BoxedStrategy<Vec<u8>> {
         Target::Event => (mevent_strategy(4, maxlen), plan_strategy(7, 2, 3))
             .prop_map(|(e, p)| render_event(&e, &p).into_bytes())
             .boxed(),
-        Target::Filter => (crate::props::c07::mfilter_strategy(maxlen), plan_strategy(12, 2, 3))
-            .prop_map(|(f, p)| render_filter(&f, &p).into_bytes())
-            .boxed(),
+        Target::Filter => prop_oneof![
+            5 => (crate::props::c07::mfilter_strategy(maxlen), plan_strategy(12, 2, 3))
+                .prop_map(|(f, p)| render_filter(&f, &p).into_bytes()),
+            // NIP-45 count filter shape (exercises hyperloglog_offset on accepted filters)
+            1 => (prop::sample::select(vec![3u16, 7]), hex32(), any::<u8>(), prop::sample::select(vec![0x80u8, 0xC3, 0xDF, 0xE2, 0xFF, b'g', b'0']))
+                .prop_map(|(k, v, pos, b)| {
+                    let mut val = v.into_bytes();
+                    let i = (pos as usize) % 80;
+                    if i < val.len() {
+                        val[i] = b;
+                    }
+                    let mut t = format!("{{\"kinds\":[{}],\"#{}\":[\"", k, if k == 3 { 'p' } else { 'e' }).into_bytes();
+                    t.extend(val);
+                    t.extend_from_slice(b"\"]}");
+                    t
+                }),
+        ]
+        .boxed(),
         Target::Tags => prop_oneof![
             3 => (prop::collection::vec(tag_strategy(4, maxlen), 0..6), plan_strategy(1, 0, 1))
                 .prop_map(|(t, p)| render_tags(&t, &p.cur()).into_bytes()),
@@ -625,6 +640,7 @@ impl Prop for C03 {
             "every output buffer length 0..=400 for the fixed sample event and 0..=300 for the sample filter".into(),
             "every byte value 0..=255 substituted at 40 evenly spaced positions of the sample event".into(),
             "filters with 1..=60 distinct-or-repeated '#x' members".into(),
+            "NIP-45 count filters {kinds:[3|7], #p|#e:[64 bytes]}: 19 byte values at each of the 64 value positions".into(),
             "nesting depths 10, 100, 1000, 10^4, 10^5, 10^6 x 3 shapes x {event unknown member, filter #e value, filter unknown member, tags}".into(),
         ]
     }
@@ -664,6 +680,18 @@ impl Prop for C03 {
                 }
                 t.push('}');
                 v.push(Case { target: Target::Filter, input: Bytes::from_vec(t.into_bytes()), outlen: 8192, fill: 0, pristine: false });
+            }
+        }
+        // NIP-45 count filters: every byte value at every position of the 64-byte tag value
+        for (k, l) in [(3u16, 'p'), (7u16, 'e')] {
+            let base = format!("{{\"kinds\":[{k}],\"#{l}\":[\"{}\"]}}", "ab".repeat(32)).into_bytes();
+            let start = base.iter().position(|c| *c == b'[').map(|_| base.len() - 64 - 3).unwrap_or(0);
+            for pos in 0..64 {
+                for b in [0x00u8, b'"', b'\\', 0x7f, 0x80, 0x9f, 0xa0, 0xbf, 0xc2, 0xc3, 0xdf, 0xe0, 0xef, 0xf0, 0xf4, 0xff, b'g', b'G', b' '] {
+                    let mut t = base.clone();
+                    t[start + pos] = b;
+                    v.push(Case { target: Target::Filter, input: Bytes::from_vec(t), outlen: 4096, fill: 0, pristine: false });
+                }
             }
         }
         for depth in [10u32, 100, 1000, 10_000, 100_000, 1_000_000] {
